@@ -41,6 +41,8 @@ class World:
             w = None
             if a.get('wrapper'):
                 w = wrapper_factory(i) if wrapper_factory else PlainWrapper()
+                if isinstance(w, PlainWrapper):
+                    w.kind = a.get('wrapper')
             self.wrappers.append(w)
             self.algebras.append(build_algebra(a, w))
         self.ns = [dict() for _ in spec['algebras']]          # per algebra: body id -> registered object
@@ -97,6 +99,8 @@ class PlainWrapper:
 
     def __call__(self, func):
         self.applied += 1
+        if getattr(self, 'kind', 'stub') == 'ident':
+            return func
 
         def wrapped(*args):
             self.calls += 1
